@@ -33,7 +33,7 @@ Qed.
 Lemma shape_step_mono sh o :
   rows_le (sh_rows sh) (sh_rows (shape_step sh o)) /\ sh_ncols sh <= sh_ncols (shape_step sh o).
 Proof.
-  destruct o as [|r|r| |n| |n|ow tm g cb]; cbn [shape_step];
+  destruct o as [|r|r| |n| |n|ow tm g cb|r']; cbn [shape_step];
     try (split; [apply rows_le_app || apply rows_le_refl | simpl; lia]).
   - destruct (nth_error (sh_rows sh) r) as [[[n|] att]|] eqn:E; try (split; [apply rows_le_refl | lia]).
     split.
@@ -99,7 +99,7 @@ Proof.
   assert (Hlast : forall x, nth_error (sh_rows sh ++ [x]) (length (sh_rows sh)) = Some x) by (intros; apply nth_error_app_last).
   split; [|split].
   - (* cells fit *)
-    destruct o as [|r|r| |n| |n|ow tm g cb]; cbn [shape_step]; try exact Ha;
+    destruct o as [|r|r| |n| |n|ow tm g cb|r']; cbn [shape_step]; try exact Ha;
       try (cbn [sh_rows sh_ncols]; intros r' sr Hr Hat;
            apply nth_error_snoc_inv in Hr as [[_ Hr]|[_ ->]];
            [pose proof (Ha r' sr Hr Hat); lia | unfold cells_n; simpl in *; try discriminate; lia]).
@@ -116,7 +116,7 @@ Proof.
   - (* order *)
     assert (Hold : forall r, In r (sh_order sh) -> exists sr, nth_error (sh_rows (shape_step sh o)) r = Some sr /\ sr_attached sr = true).
     { intros r Hr. eapply attached_mono; [exact HR | apply Hb; exact Hr]. }
-    destruct o as [|r|r| |n| |n|ow tm g cb]; cbn [shape_step] in *; try exact Hold;
+    destruct o as [|r|r| |n| |n|ow tm g cb|r']; cbn [shape_step] in *; try exact Hold;
       try (cbn [sh_order sh_rows] in *; intros r' Hin; apply in_app_or in Hin as [Hin|[<-|[]]];
            [apply Hold; exact Hin | eexists; split; [apply Hlast | reflexivity]]).
     + destruct (nth_error (sh_rows sh) r) as [[[n|] att]|] eqn:E; exact Hold.
@@ -127,7 +127,7 @@ Proof.
   - (* header *)
     assert (Hold : forall h, sh_header sh = Some h -> exists sr, nth_error (sh_rows (shape_step sh o)) h = Some sr /\ sr_attached sr = true).
     { intros h Hh. eapply attached_mono; [exact HR | apply Hc; exact Hh]. }
-    destruct o as [|r|r| |n| |n|ow tm g cb]; cbn [shape_step] in *; try exact Hold.
+    destruct o as [|r|r| |n| |n|ow tm g cb|r']; cbn [shape_step] in *; try exact Hold.
     + destruct (nth_error (sh_rows sh) r) as [[[n|] att]|] eqn:E; exact Hold.
     + destruct (nth_error (sh_rows sh) r) as [sr0|] eqn:E; exact Hold.
     + cbn [sh_header sh_rows]. intros h Hh. inversion Hh; subst. eexists. split; [apply Hlast | reflexivity].
